@@ -137,6 +137,35 @@ def main():
             raise PanicFound("slice index starts after its end", None)
         return ("chars", chars[s_off:e_off])
 
+    def concrete_u8len(e, c):
+        """UTF-8 length of a character, deciding the length class of a symbolic one on this path"""
+        if not is_sym(c):
+            return 1 if c < 0x80 else 2 if c < 0x800 else 3 if c < 0x10000 else 4
+        if e.decide(c < 0x80):
+            return 1
+        if e.decide(c < 0x800):
+            return 2
+        return 3 if e.decide(c < 0x10000) else 4
+
+    def m_str_get_range(e, m, a):
+        """str::get(start..end) in BYTE offsets: Some(sub-slice) when both lie on character boundaries inside the text"""
+        chars = chars_of(e, a[0])
+        start, end = a[1][0], a[1][1]
+        for v in (start, end):
+            if is_sym(v) and not z3.is_int_value(z3.simplify(v)):
+                raise Unsupported("symbolic slice offset")
+        start = z3.simplify(start).as_long() if is_sym(start) else start
+        end = z3.simplify(end).as_long() if is_sym(end) else end
+        bounds, pos = {0: 0}, 0
+        for k, c in enumerate(chars):
+            if pos >= end:
+                break
+            pos += concrete_u8len(e, c)
+            bounds[pos] = k + 1
+        if start > end or start not in bounds or end not in bounds:
+            return ("None",)
+        return ("Some", ("chars", chars[bounds[start]:bounds[end]]))
+
     def m_index_range_from(e, m, a):
         chars = chars_of(e, a[0])
         start = a[1][0] if isinstance(a[1], list) else a[1]
@@ -279,6 +308,11 @@ def main():
                 break
             out.append(e.call_fn(e.closure_fn(mp[2]), [Ref({0: mp[3]}, 0, ()), nx[1]]))
         return ["strbuf", out]
+
+    def m_take_for_each_drop(e, m, a):
+        while take_next(e, a[0])[0] != "None":
+            pass
+        return ("unit",)
 
     def m_take_for_each(e, m, a):
         cty = re.search(r"(\{closure@[^}]*\})", m.group(0)).group(1)
@@ -447,6 +481,8 @@ def main():
         (r"^<std::iter::Take<&mut I> as Iterator>::map::<char, \{closure@[^}]*\}>$", m_take_map),
         (r"^<Map<std::iter::Take<&mut I>, \{closure@[^}]*\}> as Iterator>::collect::<String>$", m_map_collect_string),
         (r"^<std::iter::Take<&mut I> as Iterator>::for_each::<\{closure@[^}]*\}>$", m_take_for_each),
+        (r"^<std::iter::Take<&mut I> as Iterator>::for_each::<fn\(.*\) \{std::mem::drop::<.*>\}>$", m_take_for_each_drop),
+        (r"^<std::iter::Take<&mut I> as Iterator>::(?:count|last)$", m_take_for_each_drop),
         (r"^core::slice::<impl \[char\]>::iter$", m_slice_iter),
         (r"^<std::slice::Iter<'_, char> as Iterator>::collect::<String>$", lambda e, m, a: ["strbuf", list(a[0][1])]),
         (r"^String::(?:with_capacity|new)$", lambda e, m, a: ["strbuf", []]),
@@ -464,6 +500,8 @@ def main():
         (r"^<\[u8; 4\] as Index<RangeTo<usize>>>::index$", m_index_range_to),
         (r"^Option::<.*>::ok_or::<.*>$", m_ok_or),
         (r"^Option::<.*>::unwrap_or$", lambda e, m, a: a[0][1] if a[0][0] == "Some" else a[1]),
+        (r"^core::str::<impl str>::get::<std::ops::Range<usize>>$", m_str_get_range),
+        (r"^Option::<&str>::unwrap_or_default$", lambda e, m, a: a[0][1] if a[0][0] == "Some" else ("chars", [])),
         (r"^Option::<.*>::unwrap_or_default$", lambda e, m, a: a[0][1] if a[0][0] == "Some" else 0),
         (r"^Result::<.*>::map_err::<.*\{closure@.*\}>$", ext_res_map_err),
         (r"^Result::<.*>::and_then::<.*\{closure@.*\}>$", ext_res_and_then),
@@ -701,6 +739,24 @@ def main():
                 else:
                     exp = [(valid, ("value", [v])), (z3.Not(valid), ("error",))]
                 run(dict(sd, body="escape \\%s + %d hex digits" % (letter, n)), is_bytes, mk([BS, ord(letter)] + h), [hexdigit(d) for d in h], exp)
+            # any verbatim character (of any UTF-8 length) in front of an escape: the escape's digits are found by position
+            # in characters, not bytes
+            h = C[1:3]
+            hv = hexval(h[0]) * 16 + hexval(h[1])
+            run(dict(sd, body="any character then \\xHH"), is_bytes, mk([c0, BS, 120] + h), plain_ok(c0, quote, raw) + [hexdigit(d) for d in h],
+                [(c, ("value", l)) for c, l in value_units(is_bytes, [("char", c0), ("byte" if is_bytes else "char", hv)])])
+            if not is_bytes:
+                h4 = C[1:5]
+                uv = 0
+                for d in h4:
+                    uv = uv * 16 + hexval(d)
+                valid = z3.Or(uv < 0xD800, uv > 0xDFFF)
+                run(dict(sd, body="any character then \\uHHHH"), is_bytes, mk([c0, BS, 117] + h4), plain_ok(c0, quote, raw) + [hexdigit(d) for d in h4],
+                    [(valid, ("value", [c0, uv])), (z3.Not(valid), ("error",))])
+            o3 = C[1:4]
+            ov3 = (o3[0] - 48) * 64 + (o3[1] - 48) * 8 + (o3[2] - 48)
+            run(dict(sd, body="any character then \\OOO"), is_bytes, mk([c0, BS] + o3), plain_ok(c0, quote, raw) + [o3[0] >= 48, o3[0] <= 51, octdigit(o3[1]), octdigit(o3[2])],
+                [(c, ("value", l)) for c, l in value_units(is_bytes, [("char", c0), ("byte", ov3)])])
             # an escape between two verbatim characters keeps its place
             run(dict(sd, body="x\\ny"), is_bytes, mk([120, BS, 110, 121]), [], [(True, ("value", [120, 10, 121]))])
             # the other quote kind, verbatim and escaped
